@@ -28,7 +28,7 @@ DH_KEX = (("diffie-hellman-group1-sha1", P1), ("diffie-hellman-group14-sha256", 
 EC_KEX = (("ecdh-sha2-nistp256", ec.SECP256R1), ("ecdh-sha2-nistp384", ec.SECP384R1), ("ecdh-sha2-nistp521", ec.SECP521R1))
 EC_VALUES = ("truncated", "extended", "identity", "empty", "off-curve", "other-curve", "bad-prefix", "valid-other-point", "compressed")
 X_VALUES = ("zero", "one", "low-order-3", "low-order-4", "p-1", "p", "p+1", "31-bytes", "33-bytes", "valid-other-point")
-GEX_BITS = (512, 768, 1023, 1024, 2048, 8192, 8193, 16384)
+GEX_BITS = (512, 768, 1023, 1024, 2048, 8192, 8193, 16384, -2048)     # negative: an mpint with its top bit set
 X_LOW = {
     "zero": bytes(32), "one": b"\x01" + bytes(31),
     "low-order-3": bytes.fromhex("e0eb7a7c3b41b8ae1656e3faf19fc46ada098deb9c32b1fd866205165f49b800"),
@@ -54,7 +54,21 @@ ASSUMPTIONS = ["'derives keys' is observed at the kex->transport seam (_set_K_H)
 
 
 def sim_kw(seed):
-    return {"max_steps": 2_000_000, "max_time": 3600.0}
+    return {"max_steps": 400_000, "max_time": 3600.0}
+
+
+def on_hang(sim, exc):
+    """a transport thread that burns the whole step budget inside a kex class is a rejected-value failure"""
+    from sim.core import SimBudget
+    if isinstance(exc, SimBudget):
+        for t in sim.tasks:
+            frames = core.stack_of(t, limit=30) if t.thread is not None else []
+            kf = [f for f in frames if f.startswith("kex_")]
+            if kf and t.steps > 100000:
+                where = kf[0].split(":")[0] + ":" + kf[0].split(":")[-1]
+                return Violation(("C08", "invalid-peer-value-makes-kex-spin", where),
+                                 "transport thread burned %d steps inside %s after an invalid peer value" % (t.steps, where))
+    return None
 
 
 def sstr(b):
@@ -125,7 +139,10 @@ def scenario(sim):
         valid = vname == "valid-other-point"
     else:
         bits = vname
-        pval = (1 << (bits - 1)) | sim.payload.getrandbits(bits - 1) | 1
+        if bits < 0:
+            pval = -((1 << (-bits - 1)) | sim.payload.getrandbits(-bits - 1) | 1)
+        else:
+            pval = (1 << (bits - 1)) | sim.payload.getrandbits(bits - 1) | 1
         enc = None
         valid = 1024 <= bits <= 8192
 
@@ -180,7 +197,7 @@ def scenario(sim):
         if valid and not sent_init:
             raise Violation(("C08", "in-range-group-rejected", str(vname)), "client refused a %d-bit group: %r" % (vname, err), desc)
         if not valid and (sent_init or derived or newkeys):
-            raise Violation(("C08", "out-of-range-group-accepted", "small" if vname < 1024 else "large"),
+            raise Violation(("C08", "out-of-range-group-accepted", "negative" if vname < 0 else ("small" if vname < 1024 else "large")),
                             "client continued the exchange with a %d-bit group (init sent=%s, keys derived=%s)"
                             % (vname, sent_init, derived), desc)
         if not valid and err is None:
